@@ -31,6 +31,7 @@ Fails(t) ==
   \cup (IF t.failed
         THEN    If(Len(lo) = 0 \/ Exhausted(t), "C01.failed_but_derivation_exists")
            \cup If(Len(lo) = 0 \/ Exhausted(t), "C16.failed_although_a_derivation_over_admitted_tags_exists")
+           \cup If(Len(lo) = 0 \/ Exhausted(t), "C10.fewer_than_min_k_derivations")      \* none returned although at least one exists
            \cup If(t.ph.n = 1 /\ t.ph.neginf, "C09.placeholder_score_not_minus_infinity")
            \cup If(t.ph.n = 1 /\ t.ph.leaf, "C02.placeholder_shape")
         ELSE UNION {TreeFails(t, i) : i \in 1..Len(t.trees)}
